@@ -157,7 +157,100 @@ theorem attr_insert_writes_list_insert (elems : List Nat) (i : Int) (v : Nat) :
       = Capella.CoupledList.pyInsert elems i v :=
   attrInsert_seq elems i v
 
+/-- Which members an assignment to a containment list removes from the model (`DirectProxyAccessor.__set__`, reached by
+`owner.rel = […]`, `lst[i] = x` and `lst[a:b] = […]`): exactly the members whose OWN ELEMENT is not among the assigned
+objects. Element identity decides – the objects' `==` (which `EnumerationLiteral`, the ReqIF enum values and types
+override to compare a name) plays no part: a member that merely equals an assigned object is dropped, an assigned
+member is never dropped. -/
+theorem assignment_drops_by_element_identity (lst : List Nat) (values : List Val) (v : Nat) :
+    v ∈ setDropped lst values ↔ v ∈ lst ∧ ¬ (∃ w ∈ values, w = Val.elem v) :=
+  mem_setDropped lst values v
+
+/-- Item assignment at a valid position of a list without repeated members, with an object that is not a member:
+the one member dropped is the one at that position (whatever the other members or the new object compare equal to). -/
+theorem item_assignment_drops_exactly_the_replaced_member (elems : List Nat) (hn : elems.Nodup) (k : Nat)
+    (hk : k < elems.length) (x : Nat) (hx : x ∉ elems) (v : Nat) :
+    v ∈ setDropped elems ((elems.map Val.elem).set k (Val.elem x)) ↔ v = elems[k] := by
+  rw [mem_setDropped]
+  constructor
+  · rintro ⟨hv, hnot⟩
+    obtain ⟨j, hj, rfl⟩ := List.getElem_of_mem hv
+    by_cases hjk : j = k
+    · subst hjk; rfl
+    · exfalso; apply hnot
+      refine ⟨Val.elem elems[j], ?_, rfl⟩
+      rw [List.mem_iff_getElem]
+      refine ⟨j, by simpa using hj, ?_⟩
+      rw [List.getElem_set_ne (Ne.symm hjk)]
+      simp
+  · rintro rfl
+    refine ⟨List.getElem_mem hk, ?_⟩
+    rintro ⟨w, hw, rfl⟩
+    obtain ⟨j, hj, hje⟩ := List.getElem_of_mem hw
+    have hj' : j < elems.length := by simpa using hj
+    by_cases hjk : j = k
+    · subst hjk
+      rw [List.getElem_set_self] at hje
+      simp only [Val.elem.injEq] at hje
+      exact hx (hje ▸ List.getElem_mem hk)
+    · rw [List.getElem_set_ne (Ne.symm hjk)] at hje
+      simp only [List.getElem_map, Val.elem.injEq] at hje
+      exact hjk ((List.getElem_inj hn).mp hje)
+/-- Slice assignment hands the accessor what Python's `l[lo:hi] = vs` gives on the list in hand; the whole range is
+whole-list assignment, a one-element range at a valid position is item assignment, and an empty range is
+`list.insert` – for every integer bound. -/
+theorem slice_assignment_is_python_slice_assignment (l : List Nat) (vs : List Nat) (k : Nat) (hk : k < l.length)
+    (i : Int) (v : Nat) :
+    pySetSlice l 0 l.length vs = vs ∧ pySetSlice l k (k + 1) [v] = l.set k v ∧
+    pySetSlice l i i [v] = Capella.CoupledList.pyInsert l i v :=
+  ⟨pySetSlice_whole l vs, pySetSlice_one l k v hk, pySetSlice_empty_range l i v⟩
+
+/-- FULL statement for deleting from an attribute-link list: the member sequence `AttrProxyAccessor.delete` writes
+(`[i for i in elmlist if i is not obj]`) is the list in hand without ONE occurrence of the object – what `del l[i]` /
+`l.remove(x)` leave of a Python list. -/
+def C08_attr_delete_full : Prop :=
+  ∀ (elems : List Nat) (obj : Nat), elems.filter (· != obj) = elems.erase obj
+
+/-- … which the code does not satisfy: an object held twice loses both positions (listed finding
+`member-held-twice-deleted-everywhere|AttrProxyAccessor|…`; `accessor.delete(list, obj)` is not told the position). -/
+theorem C08_attr_delete_fails : ¬ C08_attr_delete_full := by
+  intro h
+  have := h [1, 1] 1
+  revert this
+  decide
+
+/-- … and does satisfy for every list that holds the deleted object at most once (in particular every list without
+repeated members). -/
+theorem C08_attr_delete_partial (elems : List Nat) (obj : Nat) (h : elems.count obj ≤ 1) :
+    elems.filter (· != obj) = elems.erase obj := by
+  induction elems with
+  | nil => rfl
+  | cons a t ih =>
+    by_cases ha : a = obj
+    · subst ha
+      have hc : t.count a = 0 := by
+        rw [List.count_cons_self] at h; omega
+      have hnm : a ∉ t := List.count_eq_zero.mp hc
+      have hf : t.filter (· != a) = t := by
+        apply List.filter_eq_self.mpr
+        intro x hx
+        have : x ≠ a := fun e => hnm (e ▸ hx)
+        simpa using this
+      simp [hf]
+    · have hc : t.count obj ≤ 1 := by
+        rw [List.count_cons_of_ne ha] at h; exact h
+      have hne : (a != obj) = true := by simpa using ha
+      have hne' : (a == obj) = false := by simpa using ha
+      simp only [List.filter_cons, hne, if_true, List.erase_cons, hne', ih hc]
+      simp
+
 end Accessor
+
+-- Non-vacuity (round 4): members 1, 2, 3; `lst[0] = 9` drops 1 only; `owner.rel = [3, 1]` drops 2 only
+example : Capella.Accessor.setDropped [1, 2, 3] [.elem 9, .elem 2, .elem 3] = [1] := by decide
+example : Capella.Accessor.setDropped [1, 2, 3] [.elem 3, .str "2", .elem 1] = [2] := by decide
+example : Capella.Accessor.pySetSlice [1, 2, 3, 4] 1 3 [9] = [1, 9, 4] := by decide
+example : Capella.Accessor.pySetSlice [1, 2, 3, 4] (-1) 1 [9] = [1, 2, 3, 9, 4] := by decide
 
 example : (Capella.Gen.Acc.table.filter (fun r => r.writable)).length > 300 := by decide +kernel
 
